@@ -15,8 +15,12 @@ def gen(rng, count, tier):
         nj = rng.choice([1, 2, 3, 4])
         keep = rng.random() < 0.6
         via_setter = rng.random() < 0.4
+        late_setter = keep and via_setter and rng.random() < 0.5      # switched on while kept-alive workers are already running
         pool = {'n_jobs': nj, 'start_method': sms[k % len(sms)], 'keep_alive': keep, 'order_tasks': not via_setter}
         calls = []
+        if late_setter:
+            calls.append({'kind': 'map_unordered', 'n': 6, 'input': 'list', 'elem': 'scalar', 'params': {'chunk_size': 1}, 'base': 9000,
+                          'unordered_dispatch': True})
         if via_setter:
             calls.append({'kind': 'setter', 'name': 'set_order_tasks', 'args': [True]})
         for j in range(rng.choice([1, 2, 3])):
@@ -41,9 +45,13 @@ def gen(rng, count, tier):
                             kind=rng.choice(['map_unordered', 'imap_unordered']))
                 call['params'] = {'chunk_size': rng.choice([1, 2]), 'iterable_len': n}
             calls.append(call)
+            if rng.random() < 0.3 and not call.get('expect_exc'):
+                # tasks submitted with apply_async between the calls take chunk numbers too: the next call still starts at 0
+                calls.append({'kind': 'apply_batch', 'jobs': [{'id': i, 'args': [1000 * (j + 1) + 800 + i], 'cbs': [False, False]}
+                                                                for i in range(rng.choice([1, 2, 4]))], 'get_timeout': 20, 'no_join': True})
         if calls and calls[-1].get('expect_exc') and len([c for c in calls if 'n' in c]) == 1:
             calls.append({'kind': 'map', 'n': 9, 'input': 'list', 'elem': 'scalar', 'params': {'chunk_size': 2}, 'base': 5000})
-        scens.append({'id': f'o{k}', 'pool': pool, 'calls': calls, 'budget': 60})
+        scens.append({'id': f'o{k}', 'pool': pool, 'calls': calls, 'budget': 60, 'behaviour': {'task': [{'worker': 0, 'do': 'sleep', 's': 0.03}]}})
     return scens
 
 
@@ -77,8 +85,8 @@ def oracle(rec):
     checked = 0
     for call, j in zip(map_calls, order_of_jobs):
         pos = call.get('base', 0)
-        if call.get('expect_exc'):
-            continue                      # the call that was cut short by its own input: only its successors are judged
+        if call.get('expect_exc') or call.get('unordered_dispatch'):
+            continue                      # cut short by its own input / dispatched before ordering was switched on: not judged
         for k, (ln, chosen) in enumerate(jobs[j]):
             if chosen != k % nj:
                 return f"call base={call.get('base')}: chunk {k} was put on worker {chosen}, expected {k % nj}", checked
